@@ -1,6 +1,7 @@
 #!/usr/bin/env python3
 """Run every seeded change against the relevant checks; record which checks catch it (meta.json + matrix.json)."""
 import json, os, subprocess, sys, time, glob
+ROOT = os.path.dirname(os.path.dirname(os.path.abspath(__file__)))  # the verif root this copy of the tool lives in (a vp-run snapshot works too)
 EXTRA = {
  "C01-reindex-progress": ["C09"],
  "C12-queue-before-sync": ["C16"],
@@ -14,10 +15,17 @@ EXTRA = {
  "R2-C09-drop-index-ignores-id": ["C02"], "R2-C15-cleanup-not-woken-while-files-queued": [],
  "R3-C03-replay-missing-new-index": ["C09"], "R3-C03-replayed-drop-index": ["C09"], "R3-C14-reindex-progress-stale-for-queued-index": ["C09"],
  "C11-deferral-skips-queue-scan": [], "C09-reindex-progress-not-reset": [],
+ "R4-C05-overlay-clean-wrong-id-space": ["C01", "C09"], "R4-C01-freelist-reuse-header-not-dirty": ["C14", "C06"],
+ "R4-C10-deferral-drops-root-ops": ["C11"], "R4-C07-reindex-progress-reset-moved": ["C09"],
+ "R4-C06-replay-validate-exact-fit-rejected": ["C02"], "R4-C03-validate-exact-fit-rejected": ["C02"],
+ "R4-C12-replay-order-by-log-id": ["C02"], "R4-C14-rc-release-frees-only-chain-head": ["C06", "C07"],
 }
 only = sys.argv[1:]
-out = json.load(open("/verif/seeded/matrix.json")) if os.path.exists("/verif/seeded/matrix.json") else {}
-for d in sorted(glob.glob("/verif/seeded/*/")):
+if only and only[0].startswith("prefix="):
+    pre = only[0][7:]
+    only = [os.path.basename(d.rstrip("/")) for d in glob.glob(ROOT + "/seeded/*/") if os.path.basename(d.rstrip("/")).startswith(pre)]
+out = json.load(open(ROOT + "/seeded/matrix.json")) if os.path.exists(ROOT + "/seeded/matrix.json") else {}
+for d in sorted(glob.glob(ROOT + "/seeded/*/")):
     sid = os.path.basename(d.rstrip("/"))
     if only and sid not in only: continue
     meta = json.load(open(d + "meta.json"))
@@ -29,9 +37,10 @@ for d in sorted(glob.glob("/verif/seeded/*/")):
         out[sid] = {"error": "patch does not apply: " + ap.stderr[:200]}
         print(sid, "PATCH-FAILS", flush=True); continue
     env = dict(os.environ, VERIF_OUT="/dev/shm/pdbmc-matrix")
+    env.pop("PDBMC_ONLY", None)
     for p in props:
         t0 = time.time()
-        r = subprocess.run(["/verif/check", p, "quick"], capture_output=True, text=True, env=env)
+        r = subprocess.run([ROOT + "/check", p, "quick"], capture_output=True, text=True, env=env)
         viol = [l for l in r.stdout.splitlines() if l.startswith("VIOLATION")]
         detail = ""
         lines = r.stdout.splitlines()
@@ -45,4 +54,4 @@ for d in sorted(glob.glob("/verif/seeded/*/")):
     meta["trials"] = res
     json.dump(meta, open(d + "meta.json", "w"), indent=1)
     out[sid] = res
-json.dump(out, open("/verif/seeded/matrix.json", "w"), indent=1)
+json.dump(out, open(ROOT + "/seeded/matrix.json", "w"), indent=1)
